@@ -225,8 +225,9 @@ type event struct {
 }
 
 type gateOp struct {
-	n  *node
-	ev chan event
+	n    *node
+	ev   chan event
+	done chan struct{} // closed when the case is over: nothing parks any more
 }
 
 var errScripted = errors.New("scripted stage failure")
@@ -236,8 +237,14 @@ func (o *gateOp) Identifier() string { return "verif-op-" + strconv.Itoa(o.n.id)
 // Execute is called by the real planNode.ExecuteWithStats inside the real baseStage.execute, on
 // the goroutine the real baseStage.Execute chose (inline or a pool worker).
 func (o *gateOp) Execute() error {
-	o.ev <- event{kind: "gate", n: o.n}
-	<-o.n.gate
+	select {
+	case o.ev <- event{kind: "gate", n: o.n}:
+	case <-o.done:
+	}
+	select {
+	case <-o.n.gate:
+	case <-o.done:
+	}
 	switch o.n.out {
 	case 'e':
 		return errScripted
@@ -333,6 +340,7 @@ type runner struct {
 	pipe    query.Pipeline
 	blocked map[int]*node // goroutine -> stage it is parked in front of
 	nextThr int
+	done    chan struct{} // closed at the end of the case
 	pendArr int // submitted tasks that have not reached their gate yet
 	parked  int // goroutines parked inside a Complete() hook: their Complete() was counted, their Dec is outstanding
 	queuedN *node // a 'Q' stage whose task was submitted and waits in the queue of the busy 1-worker pool
@@ -350,7 +358,7 @@ func (r *runner) mkStage(n *node) stage.Stage {
 			if n.out == 'l' {
 				panic(fmt.Sprintf("scripted panic in Plan() of stage %d", n.id))
 			}
-			return stage.NewPlanNode(&gateOp{n: n, ev: r.ev})
+			return stage.NewPlanNode(&gateOp{n: n, ev: r.ev, done: r.done})
 		},
 		NextFn: func() []stage.Stage {
 			if n.out == 'n' {
@@ -365,7 +373,11 @@ func (r *runner) mkStage(n *node) stage.Stage {
 		CompleteFn: func() {
 			r.ev <- event{kind: "complete", n: n}
 			if n.cwait != nil {
-				<-n.cwait // parked inside the Complete() hook (the real code calls it under sm.mutex)
+				// parked inside the Complete() hook (the real code calls it under sm.mutex)
+				select {
+				case <-n.cwait:
+				case <-r.done:
+				}
 			}
 		},
 	}
@@ -430,9 +442,17 @@ func (r *runner) settleP(running int, patience time.Duration) (stalled bool) {
 			// waits for the busy worker: cancel the stage's context, then free the worker
 			waitingQ, r.queuedN = r.queuedN, nil
 			waitingQ.cancel()
+			// the sentinel runs on the single worker right after the stage's task: if it reports before the
+			// stage reached its gate, the accepted task ended without executing the stage
+			qn, ev, done := waitingQ, r.ev, r.done
+			r.env.qpool.Submit(context.Background(), concurrent.NewTask(func() {
+				select {
+				case ev <- event{kind: "qdone", n: qn}:
+				case <-done:
+				}
+			}, nil))
 			r.env.qFree()
 			r.pendArr++
-			timer.Reset(500 * time.Millisecond)
 		}
 		var e event
 		select {
@@ -441,13 +461,6 @@ func (r *runner) settleP(running int, patience time.Duration) (stalled bool) {
 				timer.Reset(limit)
 			}
 		case <-timer.C:
-			if waitingQ != nil {
-				// the accepted task never executed the stage
-				r.pendArr--
-				r.o.vanished = append(r.o.vanished, waitingQ)
-				waitingQ = nil
-				continue
-			}
 			if patience > 0 {
 				return true
 			}
@@ -515,6 +528,13 @@ func (r *runner) settleP(running int, patience time.Duration) (stalled bool) {
 			r.o.cbErr = append(r.o.cbErr, e.err != nil)
 			if r.o.cb == 1 {
 				r.o.regAtCb, r.o.doneAtCb, r.o.failedAtCb = r.o.reg, r.o.done, r.failed
+			}
+		case "qdone":
+			if e.n == waitingQ {
+				// the accepted task never executed the stage
+				r.pendArr--
+				r.o.vanished = append(r.o.vanished, waitingQ)
+				waitingQ = nil
 			}
 		case "maindone":
 			if running == 0 {
@@ -607,7 +627,7 @@ func (r *runner) final() string {
 func runPipeline(c *core.Ctx, en *env, root *node, rng *rand.Rand, sched []int) (*runner, []int) {
 	all := number(root)
 	r := &runner{c: c, env: en, ctx: context.Background(), ev: make(chan event, 4096), all: all,
-		blocked: map[int]*node{}, nextThr: 1}
+		blocked: map[int]*node{}, nextThr: 1, done: make(chan struct{})}
 	r.o.threadPanic = map[int]bool{}
 	taskCtx := flow.NewTaskContextWithTimeout(context.Background(), time.Minute)
 	defer taskCtx.Release()
@@ -745,6 +765,7 @@ func runPipeline(c *core.Ctx, en *env, root *node, rng *rand.Rand, sched []int) 
 	}
 	c.Op("end", r.final())
 	// never leave a goroutine parked
+	close(r.done)
 	for _, n := range all {
 		select {
 		case n.gate <- struct{}{}:
